@@ -4,7 +4,7 @@
 
 use crate::faults::{self, FaultSpace, Msg};
 use crate::fsm;
-use crate::peer::{apply_dev, DevKind};
+use crate::peer::apply_dev;
 use crate::props::c05::err_class;
 use crate::runner::{Outcome, Prop, Tier};
 use serde_json::{json, Value};
